@@ -20,13 +20,16 @@ def find_state_change_intervals(
     succ_value = get(head)
     logger.debug('%s at head %s', succ_value, head)
 
-    for level in range(head - step, last, -step):
+    level = head
+    while level > last:
+        # NOTE: the last (possibly shorter) interval ends exactly at `last`, otherwise changes right after it are missed
+        succ_level, level = level, max(level - step, last)
         value = get(level)
         logger.debug('%s at level %s', value, level)
 
         if not equals(value, succ_value):
-            logger.debug('%s -> %s at (%s, %s)', value, succ_value, level, level + step)
-            yield level + step, succ_value, level, value
+            logger.debug('%s -> %s at (%s, %s)', value, succ_value, level, succ_level)
+            yield succ_level, succ_value, level, value
             succ_value = value
 
 
